@@ -4,7 +4,7 @@ from .. import simprop
 ID = "C04"
 FAMILY = "C04"
 VARIANTS = ("asan",)
-BUDGET = {"quick": dict(examples=16000, seconds=60), "thorough": dict(examples=400000, seconds=540)}
+BUDGET = {"quick": dict(examples=80000, seconds=55), "thorough": dict(examples=2000000, seconds=540)}
 NONTRIVIAL = {'multi-cause-same-instant', 'delivered-interrupt', 'wait-ended-by-timeout'}
 PROFILES = [(3, 'timing'), (1, 'mixed'), (1, 'lifecycle')]
 RULE = ('Hypothesis-generated scenarios (profiles timing 60%, mixed 20%, lifecycle 20%): holds, several timers per process, timeouts armed before every kind of wait, yield/resume, wait-for-process, wait-for-event, interrupts and stops from processes and from dispatcher events on the same instants (times are small integers and halves, durations include 0). Oracle: a ledger of notifications addressed to each process (armed timers, interrupts, resumes, preemptions, cancels, ends of awaited processes, executed/cancelled awaited events): hold returning SUCCESS must be at exactly start+d; every non-SUCCESS return must match exactly one undelivered ledger entry due now; SUCCESS returns of yield / wait_process / wait_event need their own completion; armed timers must be delivered in their instant unless cancelled, cleared, replaced or voided by interrupt/preemption/end; at quiescence nobody is suspended past what it waited for. Non-trivial = two causes for one process on one instant, or a wait ended by its timeout, or an interrupt delivered. distinct = SHA-1 of the scenario text.')
